@@ -370,7 +370,7 @@ RulesEndSession(a, o) ==
       hintOK == h.kind \in {"valid", "expired", "multiaud", "futureiat", "noiat"} /\ Has(idts, h.id) /\ ~foreignTenant
       proven == IF h.kind # "none" THEN (IF hintOK THEN idts[h.id].client ELSE "none")
                 ELSE IF a.client \in Clients THEN a.client ELSE "none"
-      registered == proven \in Clients /\ a.uri \in Reg[proven].postLogout IN
+      registered == proven \in Clients /\ PostLogoutOK(proven, a.uri) IN      \* exactly, or via the client's post-logout glob
   { <<"C18.redirect.registered", (o.class = "redirect" /\ o.target # "default") => (registered /\ o.target = a.uri)>>,
     <<"C18.hint.bad",    (h.kind \in {"wrongkey", "wrongiss", "algnone"}) => o.class # "redirect">>,
     <<"C18.hint.foreignIssuer", (h.kind # "none" /\ foreignTenant) => o.class # "redirect">>,
